@@ -22,6 +22,7 @@ BASE_DATA = 0x2000
 NWORDS = 16
 WORK = [1, 2, 3, 4, 5, 6, 7, 8]      # small register set => dense hazards
 R_BASE, R_CNT, R_SPIN, R_TMP = 29, 30, 31, 28
+ODD_BASE = 3
 
 
 def plan(tier, seed):
@@ -59,12 +60,13 @@ def gen_block(rng, n, allow_branch=True):
     if r < 0.45:
       out.append(gen_alu(rng))
     elif r < 0.58:
-      out.append(("lw", rng.choice(WORK + [0]), R_BASE, 4 * rng.randrange(NWORDS)))
+      out.append(("lw", rng.choice(WORK + [0]), R_BASE, 4 * rng.randrange(NWORDS)) if rng.random() < 0.7 else
+                 ("lw", rng.choice(WORK + [0]), R_TMP, 4 * rng.randrange(NWORDS) - ODD_BASE))          # odd offset from the unaligned base: an aligned address
       if rng.random() < 0.6:   # load-use
         out.append((rng.choice(["add", "and", "sll", "srl"]), rng.choice(WORK), out[-1][1], rng.choice(WORK)))
     elif r < 0.70:
       w = rng.randrange(NWORDS)
-      out.append(("sw", rng.choice(WORK + [0]), R_BASE, 4 * w))
+      out.append(("sw", rng.choice(WORK + [0]), R_BASE, 4 * w) if rng.random() < 0.7 else ("sw", rng.choice(WORK + [0]), R_TMP, 4 * w - ODD_BASE))
       if rng.random() < 0.5:   # store -> load same / adjacent word
         out.append(("lw", rng.choice(WORK), R_BASE, 4 * min(NWORDS - 1, max(0, w + rng.choice([0, 0, 1, -1])))))
     elif r < 0.78:
@@ -104,6 +106,7 @@ def gen_block(rng, n, allow_branch=True):
 
 def gen_program(rng, size):
   prog = [("addi", R_BASE, 0, 1), ("addi", R_TMP, 0, 13), ("sll", R_BASE, R_BASE, R_TMP)]   # x29 = 0x2000
+  prog.append(("addi", R_TMP, R_BASE, ODD_BASE))          # x28 = 0x2000 + 3: a base that is no multiple of 4 (offsets make up for it)
   for r in WORK:     # seed registers with varied values (incl. values >= 32 for shift amounts, high bits)
     k = rng.random()
     if k < 0.4: prog.append(("csrr", r, rv0ref.MNGR2PROC))
